@@ -157,6 +157,11 @@ class CallMixin:
                 raise Unsupported("%s.%s" % (ty, attr))
             yield from m(self, st, o, args, kwargs, cx)
             return
+        from .eval_expr import NAMEDTUPLES
+        if ty and ty.startswith("ref:") and any(attr in f and self.src.is_subclass(ty[4:], nt) for nt, f in NAMEDTUPLES.items()):
+            for st1, fv in self.getattr_(st, o, attr, cx):
+                yield from self.call_value(st1, fv, args, kwargs, cx)
+            return
         if ty and ty.startswith("ref:"):
             yield from self.call_method(st, o, None, attr, args, kwargs, cx)
             return
@@ -291,7 +296,7 @@ class CallMixin:
         if t.startswith("cls:"):
             yield from self.construct(st, t[4:], args, kwargs, cx)
             return
-        if t == "hashalg":
+        if t == "hashalg" or (fv.e is not None and not t and self.o.entails(st, self.o.is_type(fv.e, "hashalg"), cheap=True)):
             yield from self.EXTERNALS["hashlib.new"](self, st, [fv] + args, kwargs, cx)
             return
         V, w = self.w.V, self.w
@@ -586,6 +591,11 @@ class CallMixin:
                 st.wr("$msg", r, args[0].e)
             yield st, o.ref(r, cname)
             return
+        from .eval_expr import NAMEDTUPLES
+        if cname in src.classes and any(src.is_subclass(cname, nt) for nt in NAMEDTUPLES) and not src.find_method(cname, "__init__"):
+            st = st.clone()
+            yield st, o.seq_new(st, cname, list(args))
+            return
         if cname in src.classes:
             st = st.clone()
             r = st.new_ref(cname)
@@ -706,7 +716,9 @@ class CallMixin:
             return SV(V.int(st.g(e.args[0].value)), "int")
         if fn == "rand_bytes":
             f = w.fun("rand_bytes", z3.IntSort(), z3.SeqSort(z3.BitVecSort(8)))
-            return o.bytes_(f(o.i(A(0))))
+            t = f(o.i(A(0)))
+            st.terms.append(("bytes", t))
+            return o.bytes_(t)
         if fn == "expanduser":
             t = w.fun("expanduser", "str", "str")(o.s(A(0)))
             st.terms.append(("str", t))
@@ -773,12 +785,14 @@ class CallMixin:
         sp = cx.spec
         var, kind = e.args[0].value.split(":")
         body = self.parse_spec(e.args[1].value)
-        sort = {"ref": z3.IntSort(), "cfg": z3.IntSort(), "int": z3.IntSort(), "key": w.V, "val": w.V, "str": z3.StringSort()}[kind]
+        sort = {"ref": z3.IntSort(), "cfg": z3.IntSort(), "int": z3.IntSort(), "key": w.V, "val": w.V, "str": z3.StringSort(),
+                "bytes": z3.SeqSort(z3.BitVecSort(8))}[kind]
 
         def inst(t, st=st, cx=cx):
             names = dict(sp.names)
             names[var] = {"ref": lambda: SV(w.V.ref(t), "ref:object"), "cfg": lambda: SV(w.V.ref(t), "ref:Config"),
-                          "int": lambda: SV(w.V.int(t), "int"), "str": lambda: SV(w.V.str(t), "str")}.get(kind, lambda: SV(t))()
+                          "int": lambda: SV(w.V.int(t), "int"), "str": lambda: SV(w.V.str(t), "str"),
+                          "bytes": lambda: SV(w.V.bytes(t), "bytes")}.get(kind, lambda: SV(t))()
             onames = dict(sp.oldnames)
             onames[var] = names[var]
             sp2 = Spec(sp.old, names, onames, sp.exc, sp.mode)
